@@ -1301,7 +1301,7 @@ func (r *EngineRunner) Exec(f []string) (res string) {
 		return r.listing()
 	case "hintcheck":
 		return r.hintCheck()
-	case "open2", "openchild", "openbad", "openrace", "openbg", "lockprobe", "closebg":
+	case "open2", "openchild", "openbad", "openrace", "openbg", "lockprobe", "closebg", "straylock":
 		return r.execLock(f)
 	case "concsched", "concpark", "concstress", "concmix", "concbg":
 		return r.execConc(f)
